@@ -46,8 +46,8 @@ class _Raised:
 RAISED = _Raised()
 _DERIVED_SET = set(RM.DERIVED)
 _PRESENT = {True: RM.BOTH + RM.CROSS_ONLY, False: RM.BOTH + RM.AUTO_ONLY}
-INTERP_NAMES_AUTO = ["Gxx", "psd", "asd", "ps", "ENBW", "Gxx_dev", "XX", "Gyy"]
-INTERP_NAMES_CROSS = ["Gxx", "Gyy", "Gxy", "csd", "Hxy", "tf", "coh", "cf", "cf_rad", "cs", "ENBW", "Gyx", "XY", "ccoh", "Hyx"]
+INTERP_NAMES_AUTO = ["Gxx", "psd", "asd", "ps", "ENBW", "Gxx_dev", "XX", "Gyy", "navg", "K", "L"]
+INTERP_NAMES_CROSS = ["Gxx", "Gyy", "Gxy", "csd", "Hxy", "tf", "coh", "cf", "cf_rad", "cs", "ENBW", "Gyx", "XY", "ccoh", "Hyx", "navg", "K", "L"]
 
 
 def budget(tier):
@@ -75,7 +75,7 @@ def generate(seed, tier):
     kind = rw.choice(["full", "full", "full", "single", "band1"])
     sc = {"data": data, "cfg": cfg, "kind": kind, "clock": CK.gen_clock(R.stream(seed, "clock"))}
     if kind == "single":
-        L = rw.randrange(1, N + 1)
+        L = rw.choice([1, 2, 2, 3]) if rw.random() < 0.15 else rw.randrange(1, N + 1)
         fsing = rw.choice([0.0, 0.5 * cfg["fs"]]) if rw.random() < 0.12 else round(rw.uniform(0, 0.5) * cfg["fs"], 6)   # incl. DC and Nyquist
         r_ = rw.random()
         sc["single"] = {"f": fsing, "L": L} if r_ < 0.5 else ({"f": fsing, "fres": cfg["fs"] / L} if r_ < 0.75 else
